@@ -122,7 +122,7 @@ type History struct {
 }
 
 // Known lists the method names the world's assigner resolves.
-var Known = map[string]bool{"ret": true, "gate": true, "err": true, "cbgate": true, "notegate": true, "svc.ret": true, "rpc.user": true}
+var Known = map[string]bool{"ret": true, "gate": true, "err": true, "raw": true, "cbgate": true, "notegate": true, "svc.ret": true, "rpc.user": true}
 
 type world struct {
 	t     *testing.T
@@ -190,9 +190,10 @@ func (w *world) gate(k int) chan string {
 }
 
 type params struct {
-	K    int  `json:"k"`
-	Obey bool `json:"obey"`
-	C    int  `json:"c"`
+	K    int    `json:"k"`
+	Obey bool   `json:"obey"`
+	C    int    `json:"c"`
+	Raw  string `json:"raw"` // method "raw": the pre-encoded result the handler returns
 }
 
 func decodeParams(req *jrpc2.Request) params {
@@ -264,6 +265,15 @@ func (w *world) assign(ctx context.Context, method string) jrpc2.Handler {
 		case "err":
 			ret = fmt.Sprintf("err:%d", p.C)
 			return nil, jrpc2.Errorf(jrpc2.Code(p.C), "handler error %d", p.K)
+		case "raw":
+			// a pre-encoded result: valid text is the result, anything else
+			// cannot be marshalled and is answered with an error
+			if len(p.Raw) == 0 || !json.Valid([]byte(p.Raw)) {
+				ret = "bad"
+			} else {
+				ret = "raw:" + p.Raw
+			}
+			return json.RawMessage(p.Raw), nil
 		case "cbgate":
 			rsp, cerr := w.srv.Callback(ctx, "cb", map[string]int{"k": p.K})
 			e := Event{Kind: "cbret", K: p.K, Inv: inv, Err: errStr(cerr)}
